@@ -71,7 +71,9 @@ FCRefines == [][FC!Next \/ UNCHANGED <<FCrt, FCfam, FCat, FCkilled>>]_vars
 
 (* ---- alphabets ------------------------------------------------------------ *)
 OpsC01 ==   \* code single use; replay after refreshes; hybrid codes; other grants interleaved
-  (IF CanAuthz THEN {Authz(c, rt, Full, Full, <<>>, "sent", "none") : c \in {"A", "B"}, rt \in {"code", "code_token", "code_idt_token"}} ELSE {})
+  (IF CanAuthz THEN {Authz(c, rt, Full, Full, <<>>, "sent", "none") : c \in {"A", "B"}, rt \in {"code", "code_token", "code_idt_token"}}
+                    \cup {Authz("A", "code", <<"a">>, <<"a">>, <<>>, "sent", "none")}     \* no offline scope: a refresh token all the same when none is required
+   ELSE {})
   \cup (IF CanMint THEN {Redeem(Owner(k), "ok", k, "same", "none", <<>>, <<>>) : k \in Codes} ELSE {})
   \cup UNION {{Redeem(c, a, k, rd, "none", <<>>, <<>>) : c \in {Owner(k), Other(Owner(k))}, a \in {"ok", "bad"}, rd \in {"same", "absent"}} :
                   k \in {x \in Codes : ~st.S.code[x].active}}                          \* replay by anybody, any way
@@ -82,7 +84,7 @@ OpsC01 ==   \* code single use; replay after refreshes; hybrid codes; other gran
   \cup TickOps
 
 OpsC01b ==  \* the life of ONE code and its tokens over time: replay at every age of the code, before and after refreshes
-  (IF CanAuthz THEN {Authz("A", rt, Full, Full, <<>>, "sent", "none") : rt \in {"code", "code_token"}} ELSE {})
+  (IF CanAuthz THEN {Authz("A", rt, Full, Full, <<>>, "sent", "none") : rt \in {"code", "code_token"}} \cup {Authz("A", "code", <<"a">>, <<"a">>, <<>>, "sent", "none")} ELSE {})
   \cup (IF CanMint THEN {Redeem(Owner(k), "ok", k, "same", "none", <<>>, <<>>) : k \in Codes} ELSE {})
   \cup {Redeem(Owner(k), "ok", k, "same", "none", <<>>, <<>>) : k \in {x \in Codes : ~st.S.code[x].active}}
   \cup (IF CanMint THEN {Refresh(st.S.rt[j].client, "ok", j, <<>>, <<>>) : j \in {x \in RTs : RTActive(st, x)}} ELSE {})
@@ -181,7 +183,9 @@ OpsC08b ==  \* revocation of tokens of every age (expired ones included) by owne
   \cup TickOps
 
 OpsC09 ==   \* introspection endpoint: callers, hints, required scopes, over states reached by all grant types
-  (IF CanAuthz THEN {Authz("A", rt, Full, Full, <<AudA>>, "sent", "none") : rt \in {"code", "code_token"}} ELSE {})
+  (IF CanAuthz THEN {Authz("A", rt, Full, Full, <<AudA>>, "sent", "none") : rt \in {"code", "code_token"}}
+                    \cup {Authz("A", "code", <<"openid", "offline", "a", "b">>, Full, <<>>, "sent", "none")}      \* partial consent: b requested, not granted
+   ELSE {})
   \cup (IF CanMint THEN {Redeem(Owner(k), "ok", k, "same", "none", <<>>, <<>>) : k \in Codes} ELSE {})
   \cup (IF CanMint THEN {CCreds("B", "ok", <<"a", "b">>, <<>>)} ELSE {})
   \cup (IF CanMint THEN {Refresh(st.S.rt[j].client, "ok", j, <<>>, <<>>) : j \in RTs} ELSE {})
